@@ -34,7 +34,20 @@ func (e *Engine) BuildVCAlt(fn *ssa.Function, prop string) (vc *VC, err error) {
 	return e.buildVC(fn, prop, true)
 }
 
+// BuildVCShift: the same with the loop invariants of the contract applied to the loops d positions
+// further down (d > 0: d loops were inserted before them) or up. Which loop an invariant set belongs
+// to is part of the proof, not of the claim: any assignment under which every obligation of the
+// function is discharged is a proof of the same contract. Tried only when the ordinals as written
+// leave an obligation open (main.go).
+func (e *Engine) BuildVCShift(fn *ssa.Function, prop string, d int) (vc *VC, err error) {
+	return e.buildVCx(fn, prop, false, d)
+}
+
 func (e *Engine) buildVC(fn *ssa.Function, prop string, alt bool) (vc *VC, err error) {
+	return e.buildVCx(fn, prop, alt, 0)
+}
+
+func (e *Engine) buildVCx(fn *ssa.Function, prop string, alt bool, shift int) (vc *VC, err error) {
 	defer func() {
 		if r := recover(); r != nil {
 			err = fmt.Errorf("VC generation for %s failed: %v", fn, r)
@@ -46,6 +59,7 @@ func (e *Engine) buildVC(fn *ssa.Function, prop string, alt bool) (vc *VC, err e
 		vc = newVC(e, fn, known, unmod)
 		vc.prop = prop
 		vc.altLoops = alt
+		vc.loopShift = shift
 		vc.noSafety = e.sweepMode
 		vc.runTop()
 		stable := len(vc.known) == len(known)
@@ -469,6 +483,16 @@ func (fr *Frame) loopInvariants(li *loopInfo) []*Clause {
 		if a := fc.AltLoops[li.ordinal]; len(a) > 0 {
 			return a
 		}
+	}
+	if fr.top && fr.vc.loopShift != 0 {
+		k := li.ordinal - fr.vc.loopShift
+		if len(fc.Loops[k]) > 0 {
+			if fr.vc.loopSetsUsed == nil {
+				fr.vc.loopSetsUsed = map[int]bool{}
+			}
+			fr.vc.loopSetsUsed[k] = true
+		}
+		return fc.Loops[k]
 	}
 	return fc.Loops[li.ordinal]
 }
